@@ -172,6 +172,11 @@ def handleObs (line : String) (toks : List String) : M Unit := do
             oracleFail "hverify" s!"Verify reported trees {have_}, the targets lie in trees {want}"
       | none => oracleFail "hverify" "honest proof of leaves that are not live in the specification"
     | _, _, _ => parseError line
+  | impl :: "rverify" :: _h :: _t :: _p :: res =>
+    -- Verify(remember=true) of an input that Verify(remember=false) accepted just before
+    let got := " ".intercalate res
+    count "rverify" line
+    if got != "ok" then oracleFail "rverify" s!"Verify(remember=true) of an accepted input returned {got} (impl {impl})"
   | impl :: "pverify" :: h :: t :: _p :: res =>
     -- MapPollard.VerifyPartialProof on untrusted input: total (C04) and sound (C03)
     match parseHashes h, parseU64s t with
